@@ -784,6 +784,55 @@ Definition go_read_dir (s : fsys) (sv : sview) (p : str) : pres :=
       end
   end.
 
+(* path/filepath.EvalSymlinks (walkSymlinks, symlink.go) for an absolute path, on components: [dest] is the
+   link-free prefix built so far (it may keep leading ".." elements, exactly as the Go code does), every
+   extension is looked up with Lstat; at most 255 links; the result is Clean(dest). *)
+Definition ETOOMANY : N := 9998.     (* errors.New("EvalSymlinks: too many links"): not an errno *)
+
+Definition render_abs (cs : list str) : str := SLASH :: intercalate [SLASH] cs.
+
+Fixpoint go_walk_symlinks (fuel : nat) (s : fsys) (sv : sview) (dest work : list str) (links : nat) : N + str :=
+  match fuel with
+  | O => inl EFUEL
+  | S f =>
+      match work with
+      | [] => inr (clean Linux (render_abs dest))
+      | c :: rest =>
+          if str_eqb c DOTS then go_walk_symlinks f s sv dest rest links
+          else if str_eqb c DOTDOTS then
+            match rev dest with
+            | [] => go_walk_symlinks f s sv (dest ++ [DOTDOTS]) rest links
+            | l :: r => if str_eqb l DOTDOTS then go_walk_symlinks f s sv (dest ++ [DOTDOTS]) rest links
+                        else go_walk_symlinks f s sv (rev r) rest links
+            end
+          else
+            let dest' := dest ++ [c] in
+            match klookup s sv false false (render_abs dest') with
+            | WErr e => inl e
+            | WNeg _ _ _ => inl ENOENT
+            | WNode _ _ _ n =>
+                match get (f_heap s) n with
+                | Some (NSym link _) =>
+                    if Nat.leb 255 links then inl ETOOMANY
+                    else if kabs link then go_walk_symlinks f s sv [] (kcomps link ++ rest) (S links)
+                    else go_walk_symlinks f s sv dest (kcomps link ++ rest) (S links)
+                | Some (NDir _ _) => go_walk_symlinks f s sv dest' rest links
+                | Some _ => if is_nil rest then go_walk_symlinks f s sv dest' rest links else inl ENOTDIR
+                | None => inl EFUEL
+                end
+            | _ => inl EFUEL
+            end
+      end
+  end.
+
+Definition go_eval_symlinks (s : fsys) (sv : sview) (p : str) : pres :=
+  if kabs p then
+    match go_walk_symlinks 20000 s sv [] (kcomps p) 0 with
+    | inl e => SErr e
+    | inr r => SStr r
+    end
+  else SErr EFUEL.     (* relative arguments are outside the generated universe *)
+
 (* ---- the specification step over the call alphabet of World.v ----------------------------- *)
 (* handle calls and view calls (Sub, SetUser, SetUMask) are not part of this specification:
    they are passed to the implementation model unchanged. *)
@@ -842,6 +891,7 @@ Definition spec_step (phl : bool) (w : sworld) (c : call) : sworld * pres :=
       else if is_ancestor (S (length h)) h (v_root v) (v_root v) (sv_cwd sv)
       then ro (SStr (path_of (S (length h)) h (v_root v) (sv_cwd sv) []))
       else ro (SErr ENOENT)
+  | CEvalSymlinks _ p => ro (go_eval_symlinks s sv p)
   | CStat _ p => ro (k_stat true s sv p)
   | CLstat _ p => ro (k_stat false s sv p)
   | CReadDir _ p => ro (go_read_dir s sv p)
